@@ -18,8 +18,8 @@ Specs == [k \in 1..Len(Cases) |-> Execute(Cases[k])]
 VARIABLES i, S
 vars == <<i, S>>
 Init == /\ i \in 1..Len(Cases)
-        /\ S = Start(Trees[i], Cases[i].serial)
-Next == /\ \E g \in Pending(S) : S' = Settle(Trees[i], S, g, Cases[i].serial)
+        /\ S = Start(Trees[i], Cases[i].gate, Cases[i].serial)
+Next == /\ \E g \in Pending(S) : S' = Settle(Trees[i], Cases[i].gate, S, g, Cases[i].serial)
         /\ UNCHANGED i
 Stutter == UNCHANGED vars
 
@@ -32,22 +32,22 @@ Orphans == OnlyOrphansAfterReady(S)
 SeqSetOf(q) == {q[k] : k \in 1..Len(q)}
 \* the first step of a run at which the model and the recording disagree: 0 = initial pending set,
 \* k = after step k, -1 (here: Len + 1) = the readiness step, "ok" otherwise
-RECURSIVE Replay(_, _, _, _, _)
-Replay(T, St, run, k, serial) ==
+RECURSIVE Replay(_, _, _, _, _, _)
+Replay(T, G, St, run, k, serial) ==
   \* -> [ok, at, what]
   IF k > Len(run.steps) THEN [ok |-> TRUE, at |-> 0, what |-> "ok", fin |-> St]
   ELSE LET st == run.steps[k] IN
        IF st.g \notin Pending(St) THEN [ok |-> FALSE, at |-> k, what |-> "drift-settled-gate-not-pending-in-model", fin |-> St]
-       ELSE LET S2 == Settle(T, St, st.g, serial) IN
+       ELSE LET S2 == Settle(T, G, St, st.g, serial) IN
             IF Pending(S2) # SeqSetOf(st.pending) THEN [ok |-> FALSE, at |-> k, what |-> "drift-pending-set-differs", fin |-> S2]
             ELSE IF Ready(S2) # (k >= run.readyAfter) THEN [ok |-> FALSE, at |-> k, what |-> "drift-readiness-differs", fin |-> S2]
-            ELSE Replay(T, S2, run, k + 1, serial)
+            ELSE Replay(T, G, S2, run, k + 1, serial)
 
 RunClause(c, T, run) ==
-  LET S0 == Start(T, c.serial) IN
+  LET S0 == Start(T, c.gate, c.serial) IN
   IF Pending(S0) # SeqSetOf(run.initial) THEN [what |-> "drift-initial-pending-set-differs", at |-> 0]
   ELSE IF Ready(S0) # (run.readyAfter = 0) THEN [what |-> "drift-readiness-differs", at |-> 0]
-  ELSE LET r == Replay(T, S0, run, 1, c.serial) IN
+  ELSE LET r == Replay(T, c.gate, S0, run, 1, c.serial) IN
        IF ~r.ok THEN [what |-> r.what, at |-> r.at]
        ELSE IF Ready(r.fin) /\ Nulled(r.fin) # SeqSetOf(run.nulled) THEN [what |-> "drift-nulled-positions-differ", at |-> Len(run.steps)]
        ELSE [what |-> "ok", at |-> 0]
